@@ -1276,10 +1276,11 @@ class PathStats:
         self.wall = 0.0
         self.unreproduced = []
         self.boundary_paths = 0
+        self.extra_witnesses = 0
 
     def merge(self, o):
         for k in ("paths", "pruned", "cut", "decisions", "queries", "obligations", "proved", "unknown",
-                  "inconclusive_paths", "validated", "nonlinear", "boundary_paths"):
+                  "inconclusive_paths", "validated", "nonlinear", "boundary_paths", "extra_witnesses"):
             setattr(self, k, getattr(self, k) + getattr(o, k))
         self.solver_time += o.solver_time
         self.wall += o.wall
@@ -1323,7 +1324,7 @@ def _alarm(signum, frame):
 
 class Explorer:
     def __init__(self, harness, params, *, query_timeout_ms=10000, path_wall_s=30.0, max_paths=None,
-                 wall_s=None, validate=True, tol=1e-6, sample_every=1):
+                 wall_s=None, validate=True, tol=1e-6, sample_every=1, extra_witness=False):
         self.harness = harness
         self.params = params
         self.qto = query_timeout_ms
@@ -1332,6 +1333,7 @@ class Explorer:
         self.wall_s = wall_s
         self.validate = validate
         self.tol = tol
+        self.extra_witness = extra_witness
         self.stats = PathStats()
 
     # one symbolic path ------------------------------------------------------
@@ -1453,6 +1455,8 @@ class Explorer:
                                        "observed": jsonable(got),
                                        "obligations": [l for (l, v, _d) in s.obligations if v == "proved"][:12],
                                        "decisions_on_path": len(ctx.decisions)})
+                if self.extra_witness and has_real:
+                    self._extra_witness(ctx, s)
                 return
             last_bad = {"assignment": jsonable(assignment), "why": jsonable(bad), "params": jsonable(self.params)}
         if has_real and tried == 1:
@@ -1461,6 +1465,29 @@ class Explorer:
             st.boundary_paths += 1
             return
         st.validation_mismatch.append(last_bad)
+
+    def _extra_witness(self, ctx, s):
+        """A second, solver-chosen witness of the same path with large-magnitude reals (|v| >= 8, multiples of 1/4), run natively as well:
+        more diverse concrete inputs for obligations that only exist natively (compiled kernels)."""
+        global _CTX
+        _CTX = ctx
+        m = None
+        try:
+            ctx.solver.set("timeout", 1500)
+            ctx.solver.push()
+            for (z, kind) in ctx.inputs.values():
+                if kind == "real":
+                    ctx.solver.add(z3.Or(z >= 8, z <= -8), z <= 1000, z >= -1000, z3.ToReal(z3.ToInt(z * 4)) == z * 4)
+            if ctx._check() == z3.sat:
+                m = ctx.solver.model()
+            ctx.solver.pop()
+        finally:
+            ctx.solver.set("timeout", self.qto)
+            _CTX = None
+        if m is not None:
+            bad, _a, _g = self._validate_one(ctx, s, m)
+            if bad is None:
+                self.stats.extra_witnesses += 1
 
     def _witnesses(self, ctx, m0, has_real):
         """The raw model first; only if it fails natively, look for a witness on a coarse dyadic grid."""
